@@ -403,6 +403,18 @@ class Rewriter:
         blk["term"] = {"k": "goto", "target": na}
         return True
 
+    def resolve_fn_item(self, path, args):
+        """a trait method named through the trait (`core::convert::From::from` with generic args [Self, T]) -> the workspace impl
+        `<Self as Trait<..>>::method` when exactly one body matches"""
+        if self.w.body(path) is not None or not args.startswith("["):
+            return path
+        first = re.split(r",\s*(?![^<]*>)", args[1:-1])[0].strip()
+        self0 = re.sub(r"<.*>$", "", first)
+        trait, _, method = path.rpartition("::")
+        cands = [k for k in self.w.bodies if "#promoted" not in k and "{closure" not in k and k.endswith(">::" + method)
+                 and re.match(r"<(?:[\w:]*::)?%s as %s[<>]" % (re.escape(self0), re.escape(trait)), k)]
+        return cands[0] if len(cands) == 1 else path
+
     def rewrite_value_map(self, blk, kind):
         """Option::map(o, f) / Result::map(r, f): a match on the variant with f applied to the payload of Some / Ok"""
         t = blk["term"]
@@ -411,10 +423,31 @@ class Rewriter:
         if T is None or len(t["args"]) != 2:
             return False
         cbody = self.closure_body(t["args"][1])
-        if cbody is None:
-            return False
         adt = "core::option::Option" if kind == "option" else "core::result::Result"
         hit, hidx, miss, midx = ("Some", 1, "None", 0) if kind == "option" else ("Ok", 0, "Err", 1)
+        fnitem = t["args"][1].get("const", {}).get("fn") if cbody is None and "const" in t["args"][1] else None
+        if cbody is None and fnitem:
+            # `.map(Self::from)`: a function item instead of a closure - the hit arm calls it directly
+            fnitem = self.resolve_fn_item(fnitem, t["args"][1]["const"].get("args", ""))
+            fb = self.w.body(fnitem)
+            src = self.stash(blk, t["args"][0], span)
+            d = self.new_local("isize", None, "int")
+            blk["stmts"].append(self.assign(d, {"k": "discr", "place": {"local": src, "proj": []}, "adt": adt, "ty": self.j["locals"][src]["ty"]}, span))
+            if kind == "option":
+                miss_rv = self.none()
+            else:
+                miss_rv = {"k": "aggr", "adt": adt, "variant": "Err", "fields": [self.mv(src, [{"downcast": "Err", "vidx": 1}, {"field": "0", "of": adt, "idx": 0}])], "names": ["0"], "is_enum": True}
+            miss_b = self.new_block([{"k": "assign", "place": copy.deepcopy(D), "rv": miss_rv, "span": span, "exp": False}], {"k": "goto", "target": T})
+            v = self.new_local(fb.locals[1]["ty"] if fb is not None and len(fb.locals) > 1 else "?", None, "adt")
+            y = self.new_local(fb.locals[0]["ty"] if fb is not None else "?", fb.locals[0]["adt"] if fb is not None else None, fb.locals[0]["tk"] if fb is not None else "adt")
+            stm = [self.assign(v, self.use(self.mv(src, [{"downcast": hit, "vidx": hidx}, {"field": "0", "of": adt, "idx": 0}])), span)]
+            hit_rv = {"k": "aggr", "adt": adt, "variant": hit, "fields": [self.mv(y)], "names": ["0"], "is_enum": True}
+            fin = self.new_block([{"k": "assign", "place": copy.deepcopy(D), "rv": hit_rv, "span": span, "exp": False}], {"k": "goto", "target": T})
+            hit_b = self.new_block(stm, self.call(fnitem, [self.mv(v)], y, fin, span, krate=fnitem.lstrip("<").split("::")[0]))
+            blk["term"] = {"k": "switch", "discr": self.mv(d), "arms": [[midx, miss_b], [hidx, hit_b]], "otherwise": miss_b, "span": span}
+            return True
+        if cbody is None:
+            return False
         src = self.stash(blk, t["args"][0], span)
         clo = self.stash(blk, t["args"][1], span)
         d = self.new_local("isize", None, "int")
